@@ -156,6 +156,8 @@ class CEval:
                 info["count_field"] = _ctx_field(a[0])
             elif isinstance(a[0], ast.Attribute) and self.repo.dotted(self.mod, a[0].value) == "construct.this":
                 info["count_field"] = a[0].attr          # this.<field>
+            elif isinstance(a[0], ast.Name) and a[0].id in self.mod.functions:
+                info["count_field"] = _ctx_field(self.mod.functions[a[0].id])     # def count(ctx): return ctx.<field>
             if cnt is not None and sub.size[0] == "fixed":
                 return Node("Array", None, ("fixed", cnt * sub.size[1]), [sub], dict(info, mod=(cnt * sub.size[1]) % 8), ln)
             if sub.size[0] == "fixed":
@@ -200,11 +202,23 @@ class CEval:
         raise AnalysisError(f"construct: unsupported combinator {short}")
 
 
-def _ctx_field(lam: ast.Lambda) -> Optional[str]:
-    """lambda ctx: ctx.field  ->  'field' (None when the count is a more complex expression)."""
-    if len(lam.args.args) == 1 and isinstance(lam.body, ast.Attribute) and isinstance(lam.body.value, ast.Name) \
-            and lam.body.value.id == lam.args.args[0].arg:
-        return lam.body.attr
+def _ctx_field(lam) -> Optional[str]:
+    """lambda ctx: ctx.field / ctx['field'], or a one-statement function returning that  ->  'field' (None when the count is
+    a more complex expression)."""
+    body = lam.body
+    if isinstance(lam, ast.FunctionDef):
+        stmts = [s_ for s_ in lam.body if not (isinstance(s_, ast.Expr) and isinstance(s_.value, ast.Constant))]   # docstring
+        if len(stmts) != 1 or not isinstance(stmts[0], ast.Return):
+            return None
+        body = stmts[0].value
+    if len(lam.args.args) != 1:
+        return None
+    ctx = lam.args.args[0].arg
+    if isinstance(body, ast.Attribute) and isinstance(body.value, ast.Name) and body.value.id == ctx:
+        return body.attr
+    if isinstance(body, ast.Subscript) and isinstance(body.value, ast.Name) and body.value.id == ctx \
+            and isinstance(body.slice, ast.Constant) and isinstance(body.slice.value, str):
+        return body.slice.value
     return None
 
 
